@@ -11,12 +11,24 @@ from functools import lru_cache
 # --------------------------------------------------------------------- names
 
 
+# Functions renamed since the development-time snapshot (new normalised name -> name the rule tables use).
+# Filled by Facts.__init__ (see Facts._detect_renames); empty on the tree the rules were written for.
+_RENAME = {}
+
+
 def norm(s):
     """Normalise a def path / type string: drop generic argument lists and
     lifetimes, keep `<X as Trait>::m` qualified forms (normalised inside)."""
     if s is None:
         return None
-    return _norm(s)
+    r = _norm(s)
+    if _RENAME:
+        if r in _RENAME:
+            return _RENAME[r]
+        i = r.find('::{')
+        if i > 0 and r[:i] in _RENAME:
+            return _RENAME[r[:i]] + r[i:]
+    return r
 
 
 @lru_cache(maxsize=200000)
@@ -902,8 +914,10 @@ def guard_edges(body, pred_origin, labels):
 # --------------------------------------------------------------------- facts
 
 class Facts:
-    def __init__(self, path):
+    def __init__(self, path, inline=False):
         self.path = path
+        self.inline = inline          # shape normalisation: splice unknown (new) helper functions into their callers
+        self.inlined_bodies = {}      # nid -> [inlined callee nids]
         self._lines = {}      # id -> raw line
         self._bodies = {}     # id -> Body
         self.adts = {}
@@ -912,6 +926,9 @@ class Facts:
         self.fns = {}
         self.meta = None
         self.by_nid = {}
+        self.renamed = {}
+        self.field_renamed = {}
+        _RENAME.clear()
         with open(path) as f:
             for line in f:
                 if line.startswith('{"k":"body","id":"'):
@@ -934,6 +951,90 @@ class Facts:
                         self.meta = r
         self._callers = None
         self._idx = None
+        self._detect_renames()
+
+    # ---- robustness against renames of private functions / fields ------------------------------------
+    def _detect_renames(self):
+        """A function of the development-time snapshot that is gone, and a function the snapshot does not know in the
+        same impl/module whose set of callees is (almost) the same, are the same function under a new name: the rule
+        tables keep using the old name. Likewise for a struct field that disappeared while one field of the same type
+        appeared in the same struct. Nothing here produces a verdict; it only decides under which name code is looked at."""
+        from .inline import known_snapshot
+        snap = known_snapshot()
+        if not snap or self.meta is None or 'routinator' not in os.path.basename(self.path):
+            return
+        known = set(snap.get('functions', []))
+        kcallees = snap.get('callees', {})
+        present = set(n for n in self.by_nid if '{closure' not in n)
+        missing = sorted(n for n in known - present if not n.split('::')[0] in ('std', 'core'))
+        unknown = sorted(n for n in present - known)
+        if missing and unknown:
+            cur = {}
+            for u in unknown:
+                cs = set()
+                for raw in self.by_nid.get(u, []):
+                    rec = json.loads(self._lines[raw])
+                    for blk in rec['blocks']:
+                        t = blk['term']
+                        if t.get('t') == 'call':
+                            cs.add(_norm((t['fn'].get('resolved') or t['fn'].get('def') or '<indirect>')))
+                cur[u] = cs
+            used = set()
+            for m in missing:
+                parent = m.rsplit('::', 1)[0]
+                want = set(kcallees.get(m, []))
+                best = None
+                for u in unknown:
+                    if u in used or u.rsplit('::', 1)[0] != parent:
+                        continue
+                    have = cur[u]
+                    if not want and not have:
+                        score = 0.5
+                    else:
+                        score = len(want & have) / float(len(want | have) or 1)
+                    if best is None or score > best[0]:
+                        best = (score, u)
+                if best and best[0] >= 0.6:
+                    self.renamed[best[1]] = m
+                    used.add(best[1])
+        if self.renamed:
+            _RENAME.update(self.renamed)
+            by = {}
+            for raw in self._lines:
+                by.setdefault(norm(raw), []).append(raw)
+            self.by_nid = by
+            self._idx = None
+        # fields
+        kfields = snap.get('fields', {})
+        all_names = {}
+        for name, a in self.adts.items():
+            for v in a.get('variants', []):
+                for x in v.get('fields', []):
+                    all_names.setdefault(x['name'], 0)
+                    all_names[x['name']] += 1
+        for name, a in self.adts.items():
+            for v in a.get('variants', []):
+                old = kfields.get(name, {}).get(v['name'])
+                if old is None:
+                    continue
+                oldn = [(n, t) for n, t in old]
+                newn = [(x['name'], x['ty']) for x in v.get('fields', [])]
+                gone = [(n, t) for n, t in oldn if n not in [y[0] for y in newn]]
+                came = [(n, t) for n, t in newn if n not in [y[0] for y in oldn]]
+                for (gn, gt) in gone:
+                    cands = [(cn, ct) for cn, ct in came if ct == gt]
+                    if len(cands) == 1 and all_names.get(cands[0][0], 0) == 1 and not cands[0][0].isdigit():
+                        self.field_renamed[cands[0][0]] = gn
+                        for x in v['fields']:
+                            if x['name'] == cands[0][0]:
+                                x['name'] = gn
+
+    def _apply_field_renames(self, line):
+        for new, old in self.field_renamed.items():
+            line = line.replace('".%s"' % new, '".%s"' % old)
+            line = re.sub(r'("names":\[[^\]]*?)"%s"' % re.escape(new), r'\1"%s"' % old, line)
+            line = line.replace('"name":"%s"' % new, '"name":"%s"' % old)
+        return line
 
     def _index(self):
         """callee name -> set(raw body ids); cached next to the fact file."""
@@ -970,9 +1071,30 @@ class Facts:
     def body_raw(self, raw_id):
         b = self._bodies.get(raw_id)
         if b is None:
-            b = Body(json.loads(self._lines[raw_id]), self)
+            rec = json.loads(self._apply_field_renames(self._lines[raw_id]) if self.field_renamed else self._lines[raw_id])
+            if self.inline:
+                from .inline import inline_unknown_helpers
+                rec, done = inline_unknown_helpers(rec, self._lookup_rec, norm)
+                if done:
+                    self.inlined_bodies[norm(raw_id)] = done
+            b = Body(rec, self)
             self._bodies[raw_id] = b
         return b
+
+    def _lookup_rec(self, nid):
+        raws = self.by_nid.get(nid) or []
+        if len(raws) != 1:
+            return None
+        return json.loads(self._lines[raws[0]])
+
+    def unknown_functions(self):
+        """Crate functions that the development-time snapshot does not know (new helpers / renamed functions)."""
+        from .inline import known_functions
+        known = known_functions()
+        if not known:
+            return []
+        return sorted(n for n in self.by_nid if '{closure' not in n and n not in known
+                      and n.split('::')[0] not in ('std', 'core', 'alloc') and '::test::' not in n and not n.startswith('test'))
 
     def find(self, pat):
         """Bodies whose normalised id matches the suffix pattern / regex."""
@@ -996,10 +1118,14 @@ class Facts:
 
     def closures_of(self, body):
         """Closure / coroutine bodies lexically inside `body` (transitively)."""
-        pref = body.id + '::{'
+        prefs = [body.id + '::{']
+        # closures of helper functions that were spliced into this body belong to it as well
+        for nid in body.rec.get('inlined', []) or []:
+            for raw in self.by_nid.get(nid, []):
+                prefs.append(raw + '::{')
         out = []
         for raw in self._lines:
-            if raw.startswith(pref):
+            if any(raw.startswith(pref) for pref in prefs):
                 out.append(self.body_raw(raw))
         return out
 
